@@ -308,7 +308,7 @@ class Decode:
         return ("?",)
 
     # ------------------------------------------------------------------ analysis of one body
-    def analyze(self, F, want_sites=True):
+    def analyze(self, F, want_sites=True, keep_state=False):
         """-> {sites: [...], ok_facts: frozenset|None}"""
         in_facts = {}
 
@@ -439,6 +439,27 @@ class Decode:
                     out[t["otherwise"]] = o
                     return out
                 dl = op_local(t["op"])
+                # `match n { 0 => .., 7 => .., _ => .. }` on an integer: the listed edges pin the value
+                if dl is not None and re.fullmatch(r"u(8|16|32|64|128|size)", F.locals[dl]["ty"]):
+                    x = self.expr(F, t["op"])
+                    if x != ("?",):
+                        for v, tb in t["targets"]:
+                            try:
+                                cv = c(int(v))
+                            except ValueError:
+                                continue
+                            nf = (frozenset(facts | {(x, cv), (cv, x)}), frozenset(pend.items()))
+                            out[tb] = nf if tb not in out else (out[tb][0] & nf[0], out[tb][1] & nf[1])
+                        listed = sorted(int(v) for v, _ in t["targets"] if str(v).isdigit())
+                        o = set(facts)
+                        if listed and listed[0] == 0 and listed == list(range(len(listed))):
+                            o.add((c(len(listed)), x))      # 0..k-1 excluded: x >= k
+                        o = (frozenset(o), frozenset(pend.items()))
+                        if t["otherwise"] in out:
+                            a = out[t["otherwise"]]
+                            o = (a[0] & o[0], a[1] & o[1])
+                        out[t["otherwise"]] = o
+                        return out
                 base = None
                 for d in F.defs().get(dl, []) if dl is not None else []:
                     if d[0] == "assign" and d[3]["k"] == "discr" and not d[3]["place"]["p"]:
@@ -482,7 +503,7 @@ class Decode:
                 f = self._facts_at_term(F, b, state_in, transfer)
                 okf = f if okf is None else (okf & f)
         if not want_sites:
-            return {"sites": [], "ok_facts": okf}
+            return {"sites": [], "ok_facts": okf, "state_in": state_in if keep_state else None}
         sites = []
         for b in F.reachable():
             if b not in state_in:
@@ -508,6 +529,18 @@ class Decode:
                     sites.append(self._alloc_site(F, b, t, facts))
         return {"sites": sites, "ok_facts": okf}
 
+    def facts_at(self, F, b):
+        """`a <= b` facts holding just before the terminator of block b of body F."""
+        key = ("facts", F.id)
+        cache = self.__dict__.setdefault("_fcache", {})
+        if key not in cache:
+            res = self.analyze(F, want_sites=False, keep_state=True)
+            cache[key] = res["state_in"]
+        st = cache[key]
+        if b not in st:
+            return frozenset()
+        return self._facts_at_term(F, b, st, None)
+
     def _facts_at_term(self, F, b, state_in, transfer):
         """facts holding just before the terminator of b (statements applied, terminator not)."""
         facts, pend = state_in[b]
@@ -526,7 +559,7 @@ class Decode:
         return frozenset(facts)
 
     def _mentions_root(self, e, base):
-        if not isinstance(e, tuple):
+        if not isinstance(e, tuple) or not e:
             return False
         if e[0] == "f" and e[1] == base:
             return True
